@@ -31,6 +31,8 @@ func cpsToString(v interface{}) string {
 	return sb.String()
 }
 
+func decodeRune(s string) (rune, int) { return utf8.DecodeRuneInString(s) }
+
 func stringToCps(s string) []interface{} {
 	out := []interface{}{}
 	for _, r := range s {
